@@ -15,6 +15,7 @@ Every theorem holds for ALL missed-set oracles `mc.missed`, all machines, maps, 
 both verification modes.
 -/
 import RigModel.Lemmas.C09Loop
+import RigModel.Lemmas.C09Trace
 import RigModel.Props.C12
 import Mathlib.Tactic.IntervalCases
 set_option linter.unusedSimpArgs false
@@ -261,6 +262,98 @@ theorem resend_exact (mc : MCfg) (c : Ctl) (apps : List App) (hv : Valid mc c ap
     · rfl
     · split <;> rfl
   rw [hsent]; exact hs
+
+/-! ### the start signal -/
+
+/-- **exactly one start signal, after the last fill, and only on a normal return without `wait`.**
+For ALL machines, maps, missed-set oracles and modes (no `Valid`, no `PreClean`; app id below 256):
+the requests `load_application` adds to the log split into `added` - fills, base-address reads,
+count requests, state read-backs: none of them a signal packet - and
+* on a normal return with `wait = False`: one more request, the newest of the log - so sent after
+  every packet of the last fill and after the last verification -, which is `send_signal("start",
+  app_id)` (`startReq`; the machine reads it as signal `start`, app mask 0xff, this app id, and
+  acknowledges it);
+* on a normal return with `wait = True`, and whenever `SpiNNakerLoadingError` is raised: nothing more -
+  no signal packet at all is sent. -/
+theorem start_signal_once (mc : MCfg) (c : Ctl) (s : Sim) (apps : List App) (happ : c.appId < 256) :
+    ∃ added : List (Req × Reply), (∀ e ∈ added, isSignalPkt e.1 = false) ∧
+      (((loadApplication mc c s apps).outcome = .ok ∧ c.wait = false) →
+        (loadApplication mc c s apps).sim.trace = (startReq c.appId, Reply.ok) :: (added ++ s.trace) ∧
+        isSignalPkt (startReq c.appId) = true ∧ decode (startReq c.appId) = .signal sigStart 255 c.appId) ∧
+      (¬ ((loadApplication mc c s apps).outcome = .ok ∧ c.wait = false) →
+        (loadApplication mc c s apps).sim.trace = added ++ s.trace) := by
+  obtain ⟨added, hadd, hno⟩ := ext_loadLoop mc c (coreCount apps) (c.nTries + 1) s 0 apps []
+  refine ⟨added, hno, ?_, ?_⟩
+  · rintro ⟨hok, hw⟩
+    have hd := decode_start c.appId happ
+    refine ⟨?_, by simp only [isSignalPkt, hd], hd⟩
+    simp only [loadApplication] at hok ⊢
+    split at hok
+    · cases hok
+    · rename_i hnil
+      simp only [if_neg hnil, hw, Bool.false_eq_true, if_false, Sim.send, step, hd, stepP, and_self, if_true, hadd]
+  · intro hnot
+    simp only [loadApplication] at hnot ⊢
+    split
+    · exact hadd
+    · split
+      · exact hadd
+      · rename_i hnil hw
+        exfalso
+        apply hnot
+        have hw' : c.wait = false := by simpa using hw
+        simp only [if_neg hnil, hw', Bool.false_eq_true, if_false, and_self]
+
+/-- counting form: among the requests of one call exactly one signal packet if it returned
+normally with `wait = False`, otherwise none -/
+theorem start_signal_count (mc : MCfg) (c : Ctl) (s : Sim) (apps : List App) (happ : c.appId < 256) :
+    ∃ new : List (Req × Reply), (loadApplication mc c s apps).sim.trace = new ++ s.trace ∧
+      new.countP (fun e => isSignalPkt e.1) =
+        if (loadApplication mc c s apps).outcome = .ok ∧ c.wait = false then 1 else 0 := by
+  obtain ⟨added, hno, h1, h2⟩ := start_signal_once mc c s apps happ
+  have h0 : added.countP (fun e => isSignalPkt e.1) = 0 := by
+    rw [List.countP_eq_zero]
+    intro e he; simp [hno e he]
+  by_cases hc : (loadApplication mc c s apps).outcome = .ok ∧ c.wait = false
+  · obtain ⟨ht, hs, _⟩ := h1 hc
+    refine ⟨(startReq c.appId, Reply.ok) :: added, by rw [ht]; rfl, ?_⟩
+    rw [if_pos hc, List.countP_cons, h0]
+    simp [hs]
+  · exact ⟨added, h2 hc, by rw [if_neg hc, h0]⟩
+
+/-- the run-time oracle `startOnceOK` (evaluated by the check on the implementation's requests) holds
+on every run of the model: a call started from an empty log puts on the wire a request sequence
+whose only signal packet is a final `send_signal("start", app_id)` - present iff the call returned
+normally with `wait = False` -/
+theorem start_once_oracle_holds (mc : MCfg) (c : Ctl) (s : Sim) (apps : List App) (happ : c.appId < 256)
+    (hs : s.trace = []) :
+    startOnceOK c.appId (decide ((loadApplication mc c s apps).outcome = .ok) && !c.wait)
+      ((loadApplication mc c s apps).sim.trace.reverse.map fun e => e.1) = true := by
+  obtain ⟨added, hno, h1, h2⟩ := start_signal_once mc c s apps happ
+  have hall : ((added.reverse.map fun e => e.1).all fun r => !isSignalPkt r) = true := by
+    simp only [List.all_eq_true, List.mem_map, List.mem_reverse]
+    rintro r ⟨e, he, rfl⟩
+    simp [hno e he]
+  by_cases hc : (loadApplication mc c s apps).outcome = .ok ∧ c.wait = false
+  · obtain ⟨ht, _, _⟩ := h1 hc
+    have hst : (decide ((loadApplication mc c s apps).outcome = .ok) && !c.wait) = true := by
+      simp [hc.1, hc.2]
+    rw [hst, ht, hs]
+    simp only [startOnceOK, if_true, List.append_nil, List.reverse_cons, List.map_append, List.map_cons,
+      List.map_nil, List.getLast?_append, List.getLast?_singleton, List.dropLast_concat, Option.some_or,
+      beq_self_eq_true, Bool.true_and]
+    exact hall
+  · have hst : (decide ((loadApplication mc c s apps).outcome = .ok) && !c.wait) = false := by
+      by_cases h3 : (loadApplication mc c s apps).outcome = .ok
+      · have : c.wait = true := by
+          cases hw : c.wait with
+          | true => rfl
+          | false => exact absurd ⟨h3, hw⟩ hc
+        simp [this]
+      · simp [h3]
+    rw [hst, h2 hc, hs]
+    simp only [startOnceOK, Bool.false_eq_true, if_false, List.append_nil]
+    exact hall
 
 /-! ### the region-compression contract, discharged by C12
 
